@@ -1125,6 +1125,15 @@ func NewOpLib() *OpLib {
 	l.Add("unstake_elys_lp1_all", "unstake", 0, func(w *World, p *BlockPlan) {
 		p.Txs = one("lp1", &ctypes.MsgUnstake{Creator: w.A("lp1").Addr.String(), Asset: "uelys", Amount: I(1e9), ValidatorAddress: w.ValAddr.String()})
 	})
+	// a commit of MORE than the claimed balance holds (claimed + 30): refused, or honoured up to the balance —
+	// either way both sides of the book must move by the same amount
+	for _, d := range []string{"ueden", "uedenb"} {
+		d := d
+		l.Add("commit_"+d+"_lp1_more_than_claimed", "commit", 0, func(w *World, p *BlockPlan) {
+			cm := w.App.CommitmentKeeper.GetCommitments(w.RCtx(), w.A("lp1").Addr)
+			p.Txs = one("lp1", &ctypes.MsgCommitClaimedRewards{Creator: w.A("lp1").Addr.String(), Denom: d, Amount: cm.GetClaimedForDenom(d).AddRaw(30)})
+		})
+	}
 	l.Add("commit_edenb_lp1", "commit", 0, func(w *World, p *BlockPlan) {
 		cm := w.App.CommitmentKeeper.GetCommitments(w.RCtx(), w.A("lp1").Addr)
 		amt := cm.GetClaimedForDenom("uedenb")
